@@ -92,6 +92,7 @@ type vfWorld struct {
 	twinRef    []string // transcript of the first execution
 	transcript []string
 	c08Loaded  []string // C08: entries of the authenticated-e-mails file version currently loaded by the proxy
+	idpURL     string   // issuer URL of the main FakeIdP when it is not http://idp.sim (set before StartIdP)
 	panicProp  string   // property a handler panic is attributed to in this run (default C19; C13/C14 under store/IdP faults)
 }
 
@@ -312,6 +313,14 @@ type vfCfg struct {
 	Whitelist      []string
 	EncodeState    bool
 	Scheme         string // scheme the browser uses to talk to the proxy: http|https
+	IdpURL         string // issuer URL of the identity provider ("" = http://idp.sim)
+}
+
+func (c *vfCfg) idp() string {
+	if c.IdpURL != "" {
+		return c.IdpURL
+	}
+	return "http://" + vfIdpHost
 }
 
 func vfDefaultCfg() *vfCfg {
@@ -364,27 +373,31 @@ func (c *vfCfg) Args() []string {
 	}
 	switch c.Provider {
 	case "oidc":
-		a = append(a, "--provider=oidc", "--oidc-issuer-url=http://"+vfIdpHost, fmt.Sprintf("--insecure-oidc-skip-nonce=%v", c.SkipNonce))
+		a = append(a, "--provider=oidc", "--oidc-issuer-url="+c.idp(), fmt.Sprintf("--insecure-oidc-skip-nonce=%v", c.SkipNonce))
 	case "google":
 		// the Google provider (the product's default) against the FakeIdP's OAuth2 endpoints
-		a = append(a, "--provider=google", "--login-url=http://"+vfIdpHost+"/authorize", "--redeem-url=http://"+vfIdpHost+"/token",
-			"--validate-url=http://"+vfIdpHost+"/plain/validate")
+		a = append(a, "--provider=google", "--login-url="+c.idp()+"/authorize", "--redeem-url="+c.idp()+"/token",
+			"--validate-url="+c.idp()+"/plain/validate")
 	case "azure":
 		// the (deprecated, still shipped) Azure AD provider against the FakeIdP; v1 endpoints: no Graph groups
 		// (endpoints and keys come from discovery; the profile URL is the discovered userinfo endpoint)
-		a = append(a, "--provider=azure", "--oidc-issuer-url=http://"+vfIdpHost)
+		a = append(a, "--provider=azure", "--oidc-issuer-url="+c.idp())
 	case "logingov":
 		// login.gov flavour: private_key_jwt at the token endpoint (the driver adds --jwt-key), the key set fetched at every login
-		a = append(a, "--provider=login.gov", "--login-url=http://"+vfIdpHost+"/authorize", "--redeem-url=http://"+vfIdpHost+"/token",
-			"--profile-url=http://"+vfIdpHost+"/userinfo", "--validate-url=http://"+vfIdpHost+"/userinfo", "--pubjwk-url=http://"+vfIdpHost+"/jwks")
+		a = append(a, "--provider=login.gov", "--login-url="+c.idp()+"/authorize", "--redeem-url="+c.idp()+"/token",
+			"--profile-url="+c.idp()+"/userinfo", "--validate-url="+c.idp()+"/userinfo", "--pubjwk-url="+c.idp()+"/jwks")
 	case "gitlab":
 		// the GitLab flavour of the OIDC provider: discovery as usual, identity from <login host>/oauth/userinfo
-		a = append(a, "--provider=gitlab", "--oidc-issuer-url=http://"+vfIdpHost, fmt.Sprintf("--insecure-oidc-skip-nonce=%v", c.SkipNonce))
+		a = append(a, "--provider=gitlab", "--oidc-issuer-url="+c.idp(), fmt.Sprintf("--insecure-oidc-skip-nonce=%v", c.SkipNonce))
+	case "entra-id":
+		// Microsoft Entra ID flavour of the OIDC provider; its issuer must look like https://login.microsoftonline.com/<tenant>/v2.0,
+		// so these worlds reach their provider over TLS (cfg.IdpURL)
+		a = append(a, "--provider=entra-id", "--oidc-issuer-url="+c.idp(), fmt.Sprintf("--insecure-oidc-skip-nonce=%v", c.SkipNonce))
 	case "keycloak-oidc":
-		a = append(a, "--provider=keycloak-oidc", "--oidc-issuer-url=http://"+vfIdpHost, fmt.Sprintf("--insecure-oidc-skip-nonce=%v", c.SkipNonce))
+		a = append(a, "--provider=keycloak-oidc", "--oidc-issuer-url="+c.idp(), fmt.Sprintf("--insecure-oidc-skip-nonce=%v", c.SkipNonce))
 	case "plain":
-		a = append(a, "--provider=digitalocean", "--login-url=http://"+vfIdpHost+"/plain/authorize", "--redeem-url=http://"+vfIdpHost+"/plain/token",
-			"--profile-url=http://"+vfIdpHost+"/plain/account", "--validate-url=http://"+vfIdpHost+"/plain/validate")
+		a = append(a, "--provider=digitalocean", "--login-url="+c.idp()+"/plain/authorize", "--redeem-url="+c.idp()+"/plain/token",
+			"--profile-url="+c.idp()+"/plain/account", "--validate-url="+c.idp()+"/plain/validate")
 	}
 	if c.PKCE != "" {
 		a = append(a, "--code-challenge-method="+c.PKCE)
@@ -583,6 +596,9 @@ func vfHasPrefixAny(s string, ps ...string) bool {
 // cfg, and n replicas sharing the configuration (and Redis, if configured).
 func (w *vfWorld) Standard(cfg *vfCfg, n int) []*vfReplica {
 	if w.idp == nil {
+		if w.idpURL == "" {
+			w.idpURL = cfg.IdpURL
+		}
 		w.StartIdP()
 	}
 	for _, u := range cfg.Upstreams {
